@@ -891,9 +891,16 @@ def build_unit(unit_dir, repo, reach=False):
         for item in U['items']:
             kind = item['kind']
             if kind == 'raw':
-                # hand-written glue allowed only for ghost members; scanned like spec
+                # hand-written glue allowed only for ghost members; scanned like spec -- unless marked "trusted":
+                # then it is a piece of the trusted prelude that has to come after extracted items (listed in the evidence)
                 with open(os.path.join(unit_dir, item['file'])) as f:
-                    P.append(Piece('\n' + f.read() + '\n'))
+                    rt = f.read()
+                if item.get('trusted'):
+                    st0 = sum(len(p.text.encode()) for p in P)
+                    P.append(Piece('\n// ===== prelude (trusted, placed after the traits it refers to): %s =====\n%s\n' % (item['file'], rt)))
+                    G.section_spans.setdefault('prelude', []).append((st0, sum(len(p.text.encode()) for p in P)))
+                else:
+                    P.append(Piece('\n' + rt + '\n'))
                 continue
             src = load_sources(repo, srcs, item['file'])
             if kind == 'consts':
